@@ -639,8 +639,15 @@ def select__index_of(self: XPathFunction, context: ta.ContextType = None) -> Ite
     else:
         collation = self.get_argument(context, 2, required=True, cls=str)
 
+    if isinstance(value, UntypedAtomic):
+        value = value.value  # xs:untypedAtomic values are compared as xs:string
+
     with CollationManager(collation, self) as manager:
         for pos, result in enumerate(self[0].atomization(context), start=1):
+            if isinstance(result, UntypedAtomic):
+                result = result.value
+            if isinstance(result, bool) is not isinstance(value, bool):
+                continue  # xs:boolean is comparable only with xs:boolean
             if manager.eq(result, value):
                 yield pos
 
